@@ -44,7 +44,7 @@ struct C05 : Property
 		return {"put.last_reference_frees", "put.not_last_reference", "cascade.children_destroyed_with_parent", "child_outlives_parent", "replace.releases_old_value", "replace.same_key_twice",
 		        "delete.member_with_extra_ref_survives", "array.put_over_occupied_slot", "array.del_range_releases", "array.out_of_range_refused", "object.self_add_refused",
 		        "userdata.replaced_callback_runs", "deep_copy.ok", "pointer_set.ok", "pointer_set.failed_value_kept", "patch.ok", "patch.failed", "patch.copy_from", "shared_node_in_two_containers",
-		        "alloc_failure.value_kept_by_caller", "parse.tree_from_parser"};
+		        "alloc_failure.value_kept_by_caller", "parse.tree_from_parser", "userdata.same_pointer_reinstalled", "object.filled_past_growth_threshold"};
 	}
 
 	// ------------------------------------------------------------------ generation
@@ -56,7 +56,7 @@ struct C05 : Property
 		p.cfg["track_pct"] = (int64_t)r.pick(std::vector<int>{0, 50, 100});
 		int nops = (int)r.range(5, 60);
 		static const char *kinds[] = {"new", "new", "new", "parse", "get", "get", "put", "put", "oadd", "oadd", "oadd", "odel", "aadd", "aadd", "aput",
-		                              "ains", "adel", "userdata", "serializer", "copy", "pset", "patch"};
+		                              "ains", "adel", "userdata", "serializer", "copy", "pset", "patch", "ofill"};
 		std::vector<std::string> en;
 		for (auto k : kinds)
 			if (r.chance(4, 5))
@@ -522,6 +522,36 @@ struct C05 : Property
 						ctx.fail("C05:self-add-accepted", "op %zu: adding an object to itself returned 0", oi);
 				}
 			}
+			else if (op.kind == "ofill")
+			{
+				// many members at once (enough to make the table grow), a few of them with the CONSTANT_KEY flag
+				static const char *fk[16] = {"f0", "f1", "f2", "f3", "f4", "f5", "f6", "f7", "f8", "f9", "f10", "f11", "f12", "f13", "f14", "f15"};
+				struct json_object *c = H(op.arg(0));
+				if (!c || LIB(json_object_get_type(c)) != json_type_object)
+					skipped = true;
+				else
+				{
+					int n = 6 + (int)(op.arg(2) % 10);
+					for (int i = 0; i < n && outcome == "ok"; i++)
+					{
+						unsigned opts = ((op.arg(3) + i) % 4 == 0) ? JSON_C_OBJECT_ADD_CONSTANT_KEY : 0;
+						struct json_object *v = LIB(json_object_new_int64(i));
+						if (!v)
+						{
+							outcome = "failed";
+							break;
+						}
+						if (LIB(json_object_object_add_ex(c, fk[i], v, opts)) != 0)
+						{
+							LIBV(json_object_put(v)); // still ours
+							outcome = "failed";
+							if (!g_alloc.fired)
+								ctx.fail("C05:spurious-failure", "op %zu: json_object_object_add_ex failed without cause", oi);
+						}
+					}
+					ctx.probe("object.filled_past_growth_threshold");
+				}
+			}
 			else if (op.kind == "odel")
 			{
 				struct json_object *c = H(op.arg(0));
@@ -616,7 +646,11 @@ struct C05 : Property
 						skipped = true; // foreign userdata (e.g. parser's number text): not ours to replace
 					if (!skipped)
 					{
-						int64_t tok = s.next_token++;
+						// every third time the SAME userdata pointer is installed again: the old callback must still run
+						bool same = s.token_of.count(id) && (op.arg(1) % 3 == 0);
+						int64_t tok = same ? s.token_of[id] : s.next_token++;
+						if (same)
+							ctx.probe("userdata.same_pointer_reinstalled");
 						LIBV(json_object_set_userdata(n, (void *)(intptr_t)tok, on_delete));
 						s.token_of[id] = tok;
 					}
@@ -636,7 +670,10 @@ struct C05 : Property
 						skipped = true;
 					if (!skipped)
 					{
-						int64_t tok = s.next_token++;
+						bool same = s.token_of.count(id) && (op.arg(2) % 3 == 0);
+						int64_t tok = same ? s.token_of[id] : s.next_token++;
+						if (same)
+							ctx.probe("userdata.same_pointer_reinstalled");
 						LIBV(json_object_set_serializer(n, (op.arg(1) & 1) ? custom_serializer : nullptr, (void *)(intptr_t)tok, on_delete));
 						s.token_of[id] = tok;
 					}
